@@ -29,7 +29,7 @@ class CliCheck(object):
         self.stats = {'jobs': 0, 'worlds': 0, 'runs': 0, 'events': 0, 'visits': 0, 'fault_plans': 0, 'restarts': 0,
                       'real_crash_crosschecks': 0, 'real_crash_mismatch': 0, 'subprocess_crosschecks': 0, 'subprocess_mismatch': 0,
                       'faults_not_fired': 0, 'fault_space_enumerated': 0, 'fault_space_capped': 0, 'model_api_calls': 0,
-                      'worlds_with_visits': 0, 'cross_property_violations': 0, 'second_generation_faults': 0, 'worlds_too_heavy': 0}
+                      'worlds_with_visits': 0, 'cross_property_violations': 0, 'second_generation_faults': 0, 'worlds_too_heavy': 0, 'clock_reads': 0}
         self.faults_fired = {}
         self.probes = {}
         self.flag_disc = {}
@@ -89,7 +89,7 @@ class CliCheck(object):
         st['worlds'] += 1
         s = r['stats']
         for k in ('runs', 'events', 'visits', 'fault_plans', 'restarts', 'real_crash_crosschecks', 'real_crash_mismatch',
-                  'subprocess_crosschecks', 'subprocess_mismatch', 'faults_not_fired', 'fault_space_enumerated', 'fault_space_capped', 'second_generation_faults', 'worlds_too_heavy'):
+                  'subprocess_crosschecks', 'subprocess_mismatch', 'faults_not_fired', 'fault_space_enumerated', 'fault_space_capped', 'second_generation_faults', 'worlds_too_heavy', 'clock_reads'):
             st[k] += s.get(k, 0)
         st['model_api_calls'] += r.get('model_api_calls', 0)
         if s.get('twin_visits'):
@@ -246,7 +246,8 @@ class CliCheck(object):
             'seed_derivation': 'every world has its own PRNG value: sha256(VERIF_SEED, property, job index); its fault plans are enumerated, not drawn',
             'worlds_per_hour': int(st['worlds'] * 3600 / max(wall, 1e-6)),
             'explore_wall_s': round(wall, 1),
-            'simulated_time': 'not applicable: the command reads no clock; I/O events are the logical time',
+            'simulated_time': 'the command reads no clock (clock_reads_by_the_command is measured through the clock seam, 0 on the pinned tree); I/O events are the logical time',
+            'clock_reads_by_the_command': st['clock_reads'],
             'io_events': st['events'], 'model_visits': st['visits'], 'model_api_calls': st['model_api_calls'],
             'fault_plans_executed': st['fault_plans'], 'faults_fired_by_kind': dict(sorted(self.faults_fired.items())),
             'faults_planned_but_not_fired': st['faults_not_fired'],
